@@ -44,4 +44,22 @@ def filterValid (definedA : Cond → Bool) (cs : List Cond) : List Cond := cs.fi
 def findSingularities (solve : Ex → List Cond) (definedA : Cond → Bool) (entries : List Ex) : List Cond :=
   filterValid definedA (dedup (generate solve entries))
 
+/-! ### views used by the regenerated detector (Generated/PySingularity.lean) -/
+
+/-- `sympy.preorder_traversal(expr)` -/
+def preorder : Ex → List Ex
+  | .atom i => [.atom i]
+  | .node a b => .node a b :: (preorder a ++ preorder b)
+  | .pow b neg => .pow b neg :: preorder b
+
+/-- `isinstance(subexpr, sympy.Pow) and subexpr.args[1] < 0` -/
+def isNegPow : Ex → Bool
+  | .pow _ neg => neg
+  | _ => false
+
+/-- `subexpr.args[0]` of a power -/
+def powBase : Ex → Ex
+  | .pow b _ => b
+  | e => e
+
 end OdeVerif.Singularity
